@@ -107,6 +107,7 @@ type dbHarness struct {
 	faultsStopped bool
 	rotInc        *simrt.Inc // side incarnation reading a damaged copy (C27)
 	delays        int
+	faultAnnounced bool
 	opening       bool // pebble.Open of the current incarnation is running
 	openFailed    bool // ... has returned an error
 }
@@ -381,6 +382,15 @@ func (h *dbHarness) root() {
 		h.inc = inc
 		h.driverDone = false
 		h.disk.OnCrash = func() { simrt.Wake(h.rootKeyAddr()) }
+		h.disk.OnFault = func() {
+			if !h.faultAnnounced {
+				// for the driver: should this process die of a runtime fatal
+				// error (a deferred Unlock during a panic, say) it was after
+				// an injected fault, i.e. fail-stop, not tooling trouble
+				h.faultAnnounced = true
+				fmt.Fprintln(os.Stderr, "VERIF: injected fault fired")
+			}
+		}
 		if h.crashOpen > 0 {
 			h.disk.CrashAt = h.crashOpen
 			h.crashOpen = 0
